@@ -49,13 +49,13 @@ Instances ==
   \* a data-carrying variant for VariantArray / EnumTable
   \cup {Inst("data_variant", d, "", s, p, FALSE) : d \in {"VariantArray", "EnumTable"}, s \in {"tuple", "named"}, p \in Positions}
   \* a lifetime parameter for EnumIter / FromRepr / EnumTable
-  \cup {Inst("lifetime", d, "", s, "", FALSE) : d \in {"EnumIter", "FromRepr", "EnumTable"}, s \in {"lt", "lt_ty"}}
+  \cup {Inst("lifetime", d, "", s, "", FALSE) : d \in {"EnumIter", "FromRepr", "EnumTable"}, s \in {"lt", "lt_ty", "lt_only_disabled"}}
   \* a repeated single-use attribute, within one attribute and across attributes
   \cup UNION {{Inst("dup_enum_kw", d, k, "", "", sp) : d \in UsesEnumKw(k), sp \in BOOLEAN} : k \in EnumKws}
   \cup UNION {{Inst("dup_variant_kw", d, k, s, p, sp) : d \in UsesVariantKw(k), s \in {"unit", "tuple1"}, p \in {"first", "last"}, sp \in BOOLEAN} : k \in VariantKws}
   \cup {Inst("dup_field_kw", "EnumString", "default_with", "named", p, sp) : p \in {"first", "last"}, sp \in BOOLEAN}
   \* two default variants
-  \cup {Inst("two_defaults", "EnumString", "default", s, "", FALSE) : s \in {"adjacent", "apart"}}
+  \cup {Inst("two_defaults", "EnumString", "default", s, "", FALSE) : s \in {"adjacent", "apart", "named_first", "named_second", "both_named"}}
   \* default / transparent on a variant without exactly one field
   \cup {Inst("default_arity", d, "default", s, p, FALSE) : d \in {"EnumString", "Display"}, s \in {"unit", "tuple2", "named2", "tuple0"}, p \in {"first", "last"}}
   \cup {Inst("transparent_arity", d, "transparent", s, p, FALSE) : d \in {"Display", "AsRefStr", "IntoStaticStr"}, s \in {"unit", "tuple2", "named2", "tuple0"}, p \in {"first", "last"}}
